@@ -10,7 +10,7 @@ RULE = ('Hypothesis: two or three classes with attributes of every core type wri
         '(optionally one referential attribute at a drawn position, optionally an unknown type) and a sequence of '
         '1-8 creations through MetaModel.new / MetaClass.new / calling the metaclass (in a quarter of the cases after the caller '
         'dropped the metamodel and kept only the class handles), each with a drawn prefix of '
-        'positional arguments and a drawn subset of keyword arguments (overlapping allowed); id generator drawn '
+        'positional arguments and a drawn subset of keyword arguments (overlapping allowed; keyword names as declared, upper, lower or swapped case); id generator drawn '
         'from IntegerGenerator, UUIDGenerator and a harness IdGenerator subclass replaying a drawn strictly '
         'increasing sequence. Oracle: defaults by type, then positional, then keywords; every defaulted UNIQUE_ID '
         'is non-null, was handed out by the generator and is unused before. Plus stand-alone generators under '
@@ -91,7 +91,9 @@ def cases(draw):
                 continue
             if draw(st.integers(0, 3)) == 0:
                 kw[a[0]] = draw(value_for(a, ci, ref))
-        cr = {'cls': ci, 'pos': pos, 'kw': kw, 'via': draw(st.sampled_from(['model', 'metaclass', 'call']))}
+        cr = {'cls': ci, 'pos': pos, 'kw': kw, 'via': draw(st.sampled_from(['model', 'metaclass', 'call'])),
+              # keyword names as declared / in upper case / in lower case / with every letter's case swapped
+              'kwcase': draw(st.sampled_from([0, 0, 1, 2, 3]))}
         if ref and ref['clash'] and ci == 0 and draw(st.booleans()):
             # refers to the one existing instance of class 1: the second such creation over a single-valued end is
             # rejected after the defaults were drawn
@@ -135,6 +137,21 @@ def value_for(attr, ci, ref):
     if ty.upper() == 'REAL':
         return gen_schema.reals().filter(lambda v: v != -12345.678)
     return gen_schema.value_of(ty)
+
+
+def respell(cr, attrs):
+    """keyword arguments under another spelling of the attribute names (names are case-insensitive); left as declared when
+    another attribute of the class would answer to the new spelling as well"""
+    k = cr.get('kwcase', 0)
+    if not k:
+        return cr['kw']
+    out = {}
+    for n, v in cr['kw'].items():
+        sp = n.upper() if k == 1 else (n.lower() if k == 2 else n.swapcase())
+        if sp in ('self', 'kind') or sum(1 for a in attrs if a[0].upper() == n.upper()) != 1 or sp in out:
+            sp = n
+        out[sp] = v
+    return out
 
 
 def run_case(case, res=None):
@@ -240,11 +257,11 @@ def run_case(case, res=None):
                 inst = loaded[cr['cls']].pop(0)
                 uid_slots -= sum(1 for n, t in attrs if t.upper() == 'UNIQUE_ID' and n != 'Ref_x9')   # counted in total above
             elif cr['via'] == 'model' and not dropped:
-                inst = m.new(c['name'], *cr['pos'], **cr['kw'])
+                inst = m.new(c['name'], *cr['pos'], **respell(cr, attrs))
             elif cr['via'] in ('metaclass', 'model'):
-                inst = mc.new(*cr['pos'], **cr['kw'])
+                inst = mc.new(*cr['pos'], **respell(cr, attrs))
             else:
-                inst = mc(*cr['pos'], **cr['kw'])
+                inst = mc(*cr['pos'], **respell(cr, attrs))
         except xtuml.MetaException as e:
             if has_unknown or expect_reject:
                 continue
